@@ -11,7 +11,8 @@ use std::fmt::Debug;
 use std::hash::{Hash, Hasher};
 use std::panic::{catch_unwind, AssertUnwindSafe};
 use std::path::{Path, PathBuf};
-use std::sync::Mutex;
+use std::sync::atomic::{AtomicBool, AtomicU64, AtomicUsize, Ordering};
+use std::sync::{Arc, Mutex};
 use std::time::Instant;
 
 pub const VERIF_DIR: &str = "/verif";
@@ -365,120 +366,194 @@ where
         let total = ((total as f64) * ctx.scale).ceil().max(1.0) as u32;
         let shards = ctx.shards.max(1).min(total as usize);
         let per = (total as usize + shards - 1) / shards;
-        let results: Mutex<Vec<(usize, ShardAcc, Option<C>)>> = Mutex::new(Vec::new());
-        std::thread::scope(|s| {
-            for shard in 0..shards {
-                let results = &results;
-                let this = &*self;
-                let caselog = caselog.clone();
-                std::thread::Builder::new()
-                    .stack_size(64 << 20)
-                    .spawn_scoped(s, move || {
-                        let mut cfg = Config::default();
-                        cfg.cases = per as u32;
-                        cfg.failure_persistence = None;
-                        cfg.rng_seed = RngSeed::Fixed(mix(ctx.seed, this.name, shard as u64));
-                        cfg.max_shrink_iters = 20_000;
-                        cfg.max_shrink_time = 0;
-                        cfg.max_global_rejects = 1 << 20;
-                        cfg.max_local_rejects = 1 << 20;
-                        cfg.verbose = 0;
-                        cfg.source_file = None;
-                        let mut runner = TestRunner::new(cfg);
-                        let strat = (this.strategy)(ctx.tier);
-                        let acc_cell = std::cell::RefCell::new(ShardAcc::default());
-                        let res = {
-                            runner.run(&strat, |case: C| {
-                                if let Some(dir) = &caselog {
-                                    // crash attribution: the case about to run is on disk
-                                    let _ = std::fs::write(dir.join(format!("{shard}.json")), serde_json::to_vec(&case).unwrap_or_default());
-                                }
-                                let mut acc = acc_cell.borrow_mut();
-                                let acc = &mut *acc;
-                                let mut out = run_case(this.run, &case);
-                                // deferred failures: known ones are counted and dropped, an unknown one fails the case
-                                if let Ok(obs) = &mut out {
-                                    let deferred = std::mem::take(&mut obs.deferred);
-                                    let mut unknown = None;
-                                    for f in deferred {
-                                        if known_open.contains(&f.sig) {
-                                            if acc.failed.is_none() {
-                                                *acc.excluded.entry(f.sig.clone()).or_default() += 1;
-                                            }
-                                        } else if unknown.is_none() {
-                                            unknown = Some(f);
-                                        }
-                                    }
-                                    if let Some(f) = unknown {
-                                        out = Err(f);
-                                    }
-                                }
-                                if acc.failed.is_some() {
-                                    // shrinking phase: no counting
-                                    return match out {
-                                        Err(f) if !known_open.contains(&f.sig) => {
-                                            Err(TestCaseError::fail(f.sig))
-                                        }
-                                        _ => Ok(()),
-                                    };
-                                }
-                                acc.evaluations += 1;
-                                match out {
-                                    Ok(obs) => {
-                                        for l in &obs.labels {
-                                            *acc.labels.entry(l.to_string()).or_default() += 1;
-                                        }
-                                        if obs.nontrivial {
-                                            let (fp, size) = fingerprint(&case);
-                                            if acc.fps.insert(fp) {
-                                                if acc.first.is_none() {
-                                                    acc.first = serde_json::to_value(&case).ok();
-                                                }
-                                                if acc.largest.as_ref().map_or(true, |(s, _)| size > *s)
-                                                    && acc.fps.len() % 7 == 1
-                                                {
-                                                    acc.largest =
-                                                        serde_json::to_value(&case).ok().map(|v| (size, v));
-                                                }
-                                            }
-                                        }
-                                        Ok(())
-                                    }
-                                    Err(f) => {
-                                        if known_open.contains(&f.sig) {
-                                            *acc.excluded.entry(f.sig.clone()).or_default() += 1;
-                                            Ok(())
-                                        } else {
-                                            let sig = f.sig.clone();
-                                            acc.failed = Some(f);
-                                            Err(TestCaseError::fail(sig))
-                                        }
-                                    }
-                                }
-                            })
-                        };
-                        let minimal = match res {
-                            Ok(()) => None,
-                            Err(TestError::Fail(_, c)) => Some(c),
-                            Err(TestError::Abort(r)) => {
-                                eprintln!("[{}] shard {} aborted: {}", this.name, shard, r);
-                                None
-                            }
-                        };
-                        results.lock().unwrap().push((shard, acc_cell.into_inner(), minimal));
-                    })
-                    .expect("spawn");
-            }
+        let hang_ms: u64 = std::env::var("PGCHECK_HANG_S").ok().and_then(|s| s.parse::<u64>().ok()).unwrap_or(120) * 1000;
+
+        // The workers are detached threads (everything they need is 'static or shared through an Arc),
+        // so that a case that never terminates can be abandoned: the campaign then reports what the
+        // other shards found, or "inconclusive", instead of waiting for the outer watchdog.
+        let shared: Arc<Shared<C>> = Arc::new(Shared {
+            shards: (0..shards).map(|_| ShardState::default()).collect(),
+            stop_above: AtomicUsize::new(usize::MAX),
+            known_open: known_open.clone(),
         });
-        let mut results = results.into_inner().unwrap();
-        results.sort_by_key(|r| r.0);
+        let (name, run, strategy, tier, seed) = (self.name, self.run, self.strategy, ctx.tier, ctx.seed);
+        for shard in 0..shards {
+            let shared = shared.clone();
+            let caselog = caselog.clone();
+            std::thread::Builder::new()
+                .stack_size(64 << 20)
+                .spawn(move || {
+                    let st = &shared.shards[shard];
+                    let known_open = &shared.known_open;
+                    let mut cfg = Config::default();
+                    cfg.cases = per as u32;
+                    cfg.failure_persistence = None;
+                    cfg.rng_seed = RngSeed::Fixed(mix(seed, name, shard as u64));
+                    cfg.max_shrink_iters = 20_000;
+                    cfg.max_shrink_time = 0;
+                    cfg.max_global_rejects = 1 << 20;
+                    cfg.max_local_rejects = 1 << 20;
+                    cfg.verbose = 0;
+                    cfg.source_file = None;
+                    let mut runner = TestRunner::new(cfg);
+                    let strat = strategy(tier);
+                    let res = runner.run(&strat, |case: C| {
+                        let failed_already = st.acc.lock().unwrap().failed.is_some();
+                        if !failed_already && shared.stop_above.load(Ordering::Relaxed) < shard {
+                            // a lower shard has a failure to report: this shard's remaining cases are skipped
+                            return Ok(());
+                        }
+                        if let Some(dir) = &caselog {
+                            // crash attribution: the case about to run is on disk
+                            let _ = std::fs::write(dir.join(format!("{shard}.json")), serde_json::to_vec(&case).unwrap_or_default());
+                        }
+                        *st.current.lock().unwrap() = Some(case.clone());
+                        st.heartbeat.store(t0.elapsed().as_millis() as u64 + 1, Ordering::Relaxed);
+                        let mut out = run_case(run, &case);
+                        st.heartbeat.store(0, Ordering::Relaxed);
+                        let mut acc = st.acc.lock().unwrap();
+                        let acc = &mut *acc;
+                        // deferred failures: known ones are counted and dropped, an unknown one fails the case
+                        if let Ok(obs) = &mut out {
+                            let deferred = std::mem::take(&mut obs.deferred);
+                            let mut unknown = None;
+                            for f in deferred {
+                                if known_open.contains(&f.sig) {
+                                    if acc.failed.is_none() {
+                                        *acc.excluded.entry(f.sig.clone()).or_default() += 1;
+                                    }
+                                } else if unknown.is_none() {
+                                    unknown = Some(f);
+                                }
+                            }
+                            if let Some(f) = unknown {
+                                out = Err(f);
+                            }
+                        }
+                        if acc.failed.is_some() {
+                            // shrinking phase: no counting
+                            return match out {
+                                Err(f) if !known_open.contains(&f.sig) => Err(TestCaseError::fail(f.sig)),
+                                _ => Ok(()),
+                            };
+                        }
+                        acc.evaluations += 1;
+                        match out {
+                            Ok(obs) => {
+                                for l in &obs.labels {
+                                    *acc.labels.entry(l.to_string()).or_default() += 1;
+                                }
+                                if obs.nontrivial {
+                                    let (fp, size) = fingerprint(&case);
+                                    if acc.fps.insert(fp) {
+                                        if acc.first.is_none() {
+                                            acc.first = serde_json::to_value(&case).ok();
+                                        }
+                                        if acc.largest.as_ref().map_or(true, |(s, _)| size > *s) && acc.fps.len() % 7 == 1 {
+                                            acc.largest = serde_json::to_value(&case).ok().map(|v| (size, v));
+                                        }
+                                    }
+                                }
+                                Ok(())
+                            }
+                            Err(f) => {
+                                if known_open.contains(&f.sig) {
+                                    *acc.excluded.entry(f.sig.clone()).or_default() += 1;
+                                    Ok(())
+                                } else {
+                                    let sig = f.sig.clone();
+                                    acc.failed = Some(f);
+                                    *st.unshrunk.lock().unwrap() = Some(case.clone());
+                                    shared.stop_above.fetch_min(shard, Ordering::Relaxed);
+                                    Err(TestCaseError::fail(sig))
+                                }
+                            }
+                        }
+                    });
+                    let minimal = match res {
+                        Ok(()) => None,
+                        Err(TestError::Fail(_, c)) => Some(c),
+                        Err(TestError::Abort(r)) => {
+                            eprintln!("[{}] shard {} aborted: {}", name, shard, r);
+                            None
+                        }
+                    };
+                    *st.minimal.lock().unwrap() = minimal;
+                    st.done.store(true, Ordering::Release);
+                })
+                .expect("spawn");
+        }
+
+        // wait for the shards; a shard whose current case has been running for `hang_ms` is abandoned
+        let mut hung: Vec<usize> = Vec::new();
+        loop {
+            let now = t0.elapsed().as_millis() as u64 + 1;
+            hung.clear();
+            let mut pending = 0;
+            for (i, st) in shared.shards.iter().enumerate() {
+                if st.done.load(Ordering::Acquire) {
+                    continue;
+                }
+                let hb = st.heartbeat.load(Ordering::Relaxed);
+                if hb != 0 && now.saturating_sub(hb) > hang_ms {
+                    hung.push(i);
+                } else {
+                    pending += 1;
+                }
+            }
+            if pending == 0 {
+                break;
+            }
+            if !hung.is_empty() && shared.shards.iter().any(|st| st.unshrunk.lock().unwrap().is_some()) {
+                // there is a failure to report and a shard that does not come back: stop waiting
+                shared.stop_above.store(0, Ordering::Relaxed);
+                std::thread::sleep(std::time::Duration::from_millis(2000));
+                break;
+            }
+            std::thread::sleep(std::time::Duration::from_millis(if t0.elapsed().as_millis() < 2000 { 5 } else { 50 }));
+        }
+
         let mut rep = SubReport {
             name: self.name.to_string(),
             profile: ctx.profile.to_string(),
             ..Default::default()
         };
         let mut fps: HashSet<u64> = HashSet::new();
-        for (_shard, acc, minimal) in results {
+        for (shard, st) in shared.shards.iter().enumerate() {
+            let finished = st.done.load(Ordering::Acquire);
+            // a hung shard still owns its accumulator only between cases: try_lock, never block
+            let acc = match st.acc.try_lock() {
+                Ok(mut g) => std::mem::take(&mut *g),
+                Err(_) => ShardAcc::default(),
+            };
+            let minimal: Option<C> = if finished {
+                st.minimal.lock().unwrap().take()
+            } else {
+                // not finished (hung, possibly while shrinking): report the failing case as generated
+                st.unshrunk.lock().unwrap().clone()
+            };
+            if !finished && minimal.is_none() {
+                let dir = Path::new(VERIF_DIR).join("failures").join(ctx.prop);
+                let _ = std::fs::create_dir_all(&dir);
+                let mut where_ = String::from("(case not available)");
+                if let Ok(g) = st.current.try_lock() {
+                    if let Some(c) = &*g {
+                        let (fp, _) = fingerprint(c);
+                        let path = dir.join(format!("{}-hang-{:016x}.json", self.name.replace('/', "_"), fp));
+                        let rf = ReplayFile {
+                            property: ctx.prop.to_string(),
+                            sub: self.name.to_string(),
+                            sig: "hang:case-did-not-terminate".into(),
+                            msg: format!("this case had been running for more than {} s when the campaign gave up on it", hang_ms / 1000),
+                            case: serde_json::to_value(c).unwrap_or(serde_json::Value::Null),
+                        };
+                        let _ = std::fs::write(&path, serde_json::to_string_pretty(&rf).unwrap());
+                        where_ = path.to_string_lossy().into_owned();
+                    }
+                }
+                eprintln!("[{}] shard {} abandoned: its current case did not terminate within {} s; saved as {}", self.name, shard, hang_ms / 1000, where_);
+                rep.labels.insert(format!("INCONCLUSIVE: a case of {} did not terminate within {} s (saved: {})", self.name, hang_ms / 1000, where_), 1);
+            }
             rep.evaluations += acc.evaluations;
             fps.extend(acc.fps);
             for (k, v) in acc.excluded {
@@ -498,26 +573,61 @@ where
                 }
             }
             if let (Some(c), None) = (minimal, &rep.violation) {
-                // diagnose the minimal case again to get its own message
-                let f = match run_case_strict(self.run, &c) {
-                    Err(f) => f,
-                    Ok(_) => acc.failed.clone().unwrap_or(Failure {
-                        sig: "flaky".into(),
-                        msg: "minimal case passed when re-run".into(),
-                    }),
+                // diagnose the minimal case again to get its own message (a shard that was abandoned
+                // reports the failure it recorded: re-running its case might not come back either)
+                let f = if finished {
+                    match run_case_strict(self.run, &c) {
+                        Err(f) => f,
+                        Ok(_) => acc.failed.clone().unwrap_or(Failure { sig: "flaky".into(), msg: "minimal case passed when re-run".into() }),
+                    }
+                } else {
+                    let mut f = acc.failed.clone().unwrap_or(Failure { sig: "unknown".into(), msg: "failure recorded by an abandoned shard".into() });
+                    f.msg.push_str(" [not shrunk: a case tried while shrinking did not terminate]");
+                    f
                 };
                 let path = write_replay(ctx.prop, self.name, &f, &c);
-                rep.violation = Some(ViolationReport {
-                    sig: f.sig,
-                    msg: f.msg,
-                    replay: path.to_string_lossy().into_owned(),
-                });
+                rep.violation = Some(ViolationReport { sig: f.sig, msg: f.msg, replay: path.to_string_lossy().into_owned() });
             }
+        }
+        if rep.violation.is_some() {
+            // a violation outranks "inconclusive"
+            rep.labels.retain(|k, _| !k.starts_with("INCONCLUSIVE"));
         }
         rep.distinct_nontrivial = fps.len() as u64;
         rep.wall_s = t0.elapsed().as_secs_f64();
         rep
     }
+}
+
+struct ShardState<C> {
+    /// 0 = between cases, else ms since campaign start (+1) at which the current case started
+    heartbeat: AtomicU64,
+    done: AtomicBool,
+    current: Mutex<Option<C>>,
+    /// the failing case as generated, set when the shard first fails (before shrinking)
+    unshrunk: Mutex<Option<C>>,
+    minimal: Mutex<Option<C>>,
+    acc: Mutex<ShardAcc>,
+}
+
+impl<C> Default for ShardState<C> {
+    fn default() -> Self {
+        ShardState {
+            heartbeat: AtomicU64::new(0),
+            done: AtomicBool::new(false),
+            current: Mutex::new(None),
+            unshrunk: Mutex::new(None),
+            minimal: Mutex::new(None),
+            acc: Mutex::new(ShardAcc::default()),
+        }
+    }
+}
+
+struct Shared<C> {
+    shards: Vec<ShardState<C>>,
+    /// shards with an index above this skip their remaining cases (a lower shard has failed)
+    stop_above: AtomicUsize,
+    known_open: HashSet<String>,
 }
 
 impl<C> Sub<C>
